@@ -4,6 +4,7 @@
 //   ovr_prog --seed N --tier quick|thorough      -> JSON summary
 //   ovr_prog --replay FILE
 #define _GNU_SOURCE 1
+#include <signal.h>
 #include <stdio.h>
 #include <stdlib.h>
 #include <string.h>
@@ -39,11 +40,11 @@ static void violation(const char* rp, const char* fmt, ...) { va_list ap; va_sta
 
 enum { A_MALLOC, A_CALLOC, A_REALLOC_NULL, A_POSIX_MEMALIGN, A_ALIGNED_ALLOC, A_MEMALIGN, A_VALLOC, A_PVALLOC, A_REALLOCARRAY_NULL, A_STRDUP, A_STRNDUP, A_REALPATH,
 #ifndef OVR_C
-  A_NEW, A_NEW_ARR, A_NEW_NOTHROW, A_NEW_ARR_NOTHROW, A_NEW_ALIGNED, A_NEW_ARR_ALIGNED, A_NEW_ALIGNED_NOTHROW, A_VECTOR, A_STRING,
+  A_NEW, A_NEW_ARR, A_NEW_NOTHROW, A_NEW_ARR_NOTHROW, A_NEW_ALIGNED, A_NEW_ARR_ALIGNED, A_NEW_ALIGNED_NOTHROW, A_NEW_ARR_ALIGNED_NOTHROW, A_VECTOR, A_STRING,
 #endif
   A_COUNT };
 static const char* A_NAMES[] = { "malloc", "calloc", "realloc(NULL)", "posix_memalign", "aligned_alloc", "memalign", "valloc", "pvalloc", "reallocarray(NULL)", "strdup", "strndup", "realpath(.,NULL)",
-  "operator new", "operator new[]", "new(nothrow)", "new[](nothrow)", "new(align_val_t)", "new[](align_val_t)", "new(align_val_t,nothrow)", "std::vector buffer", "std::string buffer" };
+  "operator new", "operator new[]", "new(nothrow)", "new[](nothrow)", "new(align_val_t)", "new[](align_val_t)", "new(align_val_t,nothrow)", "new[](align_val_t,nothrow)", "std::vector buffer", "std::string buffer" };
 enum { F_FREE, F_CFREE, F_REALLOC_ZERO_THEN_FREE,
 #ifndef OVR_C
   F_DELETE, F_DELETE_ARR, F_DELETE_SIZED, F_DELETE_ARR_SIZED, F_DELETE_ALIGNED, F_DELETE_ARR_ALIGNED, F_DELETE_SIZED_ALIGNED, F_DELETE_NOTHROW, F_DELETE_ARR_NOTHROW,
@@ -76,6 +77,7 @@ static void* do_alloc(int a, size_t n, size_t al, size_t* got_n, size_t* got_al)
     case A_NEW_ALIGNED: p = ::operator new(n, std::align_val_t(al)); *got_al = al; break;
     case A_NEW_ARR_ALIGNED: p = ::operator new[](n, std::align_val_t(al)); *got_al = al; break;
     case A_NEW_ALIGNED_NOTHROW: p = ::operator new(n, std::align_val_t(al), std::nothrow); *got_al = al; break;
+    case A_NEW_ARR_ALIGNED_NOTHROW: p = ::operator new[](n, std::align_val_t(al), std::nothrow); *got_al = al; break;
     case A_VECTOR: case A_STRING: break;   // handled separately
 #endif
   }
@@ -104,8 +106,12 @@ static bool do_free(int f, void* p, size_t n, size_t al) {
 static int family_a(int a) { return a <= A_REALPATH ? 0 : 1; }
 static int family_f(int f) { return f <= F_REALLOC_ZERO_THEN_FREE ? 0 : 1; }
 
+// a crash names the tuple that was being checked, so that the driver can hand out a replay that reproduces it
+static char g_cur_rp[160] = "errors";
+static char g_rerun[64] = "errors";   // a crash can depend on the allocations made before: the replay re-runs the whole deterministic sequence
+static void crash_handler(int sig) { char buf[300]; int k = snprintf(buf, sizeof buf, "\nCRASH-AT signal %d while checking '%s' in: %s\n", sig, g_cur_rp, g_rerun); ssize_t w = write(2, buf, (size_t)k); (void)w; _exit(128 + sig); }
 static void check_tuple(int a, int r, int f, size_t n, size_t al) {
-  char rp[120]; snprintf(rp, sizeof rp, "tuple %d %d %d %zu %zu", a, r, f, n, al); n_eval++;
+  char rp[120]; snprintf(rp, sizeof rp, "tuple %d %d %d %zu %zu", a, r, f, n, al); n_eval++; snprintf(g_cur_rp, sizeof g_cur_rp, "%s", rp);
   if (a < 0 || a >= A_COUNT || f < 0 || f >= F_COUNT) return;
   if ((al & (al - 1)) != 0 || al == 0) al = 16;
 #ifndef OVR_C
@@ -158,17 +164,7 @@ static void check_errors(void) {
   n_nontrivial++;
 }
 
-int main(int argc, char** argv) {
-  int thorough = 0; uint64_t seed = 1; const char* replay = NULL;
-  for (int i = 1; i < argc; i++) { if (!strcmp(argv[i], "--tier") && i + 1 < argc) thorough = !strcmp(argv[++i], "thorough"); else if (!strcmp(argv[i], "--seed") && i + 1 < argc) seed = strtoull(argv[++i], NULL, 0); else if (!strcmp(argv[i], "--replay") && i + 1 < argc) replay = argv[++i]; }
-  rng_s = seed * 0x9E3779B97F4A7C15ull + 99;
-  if (&mi_is_in_heap_region != NULL && &mi_usable_size != NULL) { mi_in_region = &in_region_static; mi_usable = (usable_fn)&mi_usable_size; }
-  else { mi_in_region = (in_region_fn)dlsym(RTLD_DEFAULT, "mi_is_in_heap_region"); mi_usable = (usable_fn)dlsym(RTLD_DEFAULT, "mi_usable_size"); }
-  p_cfree = (cfree_fn)dlsym(RTLD_DEFAULT, "cfree"); p_reallocarray = (reallocarray_fn)dlsym(RTLD_DEFAULT, "reallocarray");
-  if ((!mi_in_region || !mi_usable) && replay) { printf("FAIL clause=override-not-active: the allocator's symbols are not present in the process\n"); return 1; }
-  if (!mi_in_region || !mi_usable) { printf("{\"evaluations\":1,\"distinct_nontrivial\":0,\"violations\":1,\"classes\":{},\"samples\":[],\"violation_list\":[{\"msg\":\"the allocator's symbols (mi_is_in_heap_region, mi_usable_size) are not present in the process: the override is not active\",\"replay\":\"errors\"}]}\n"); return 0; }
-  g_src = (char*)malloc(65001); for (int i = 0; i < 65000; i++) g_src[i] = (char)('a' + i % 26); g_src[65000] = 0;
-  if (replay) { replaying = 1; FILE* f = fopen(replay, "r"); if (!f) return 2; char line[200]; while (fgets(line, sizeof line, f)) { int a, r, fr; size_t n, al; if (sscanf(line, "tuple %d %d %d %zu %zu", &a, &r, &fr, &n, &al) == 5) check_tuple(a, r, fr, n, al); else if (!strncmp(line, "errors", 6)) check_errors(); } fclose(f); if (!n_viol) printf("PASS\n"); return n_viol ? 1 : 0; }
+static void run_all(int thorough) {
   check_errors();
   // the full A x F matrix for representatives of every size class kind, with and without a resize in between
   static const size_t reps[] = { 0, 1, 8, 24, 100, 1000, 4096, 9000, 70000, 600000, 5000000, 40000000 }; static const size_t aligns[] = { 8, 16, 64, 4096, 65536, 1048576 };
@@ -176,6 +172,22 @@ int main(int argc, char** argv) {
   long N = thorough ? 400000 : 12000;
   for (long i = 0; i < N; i++) { size_t n; unsigned k = (unsigned)(rnd() % 8); n = (k < 4 ? rnd() % 2000 : k < 6 ? rnd() % 70000 : k == 6 ? rnd() % 3000000 : rnd() % 40000000); if (rnd() % 50 == 0) n = ((size_t)1 << (rnd() % 26)) + (size_t)(rnd() % 3) - 1;
     check_tuple((int)(rnd() % A_COUNT), (int)(rnd() % R_COUNT), (int)(rnd() % F_COUNT), n, (size_t)1 << (3 + rnd() % 18)); }
+}
+
+int main(int argc, char** argv) {
+  int thorough = 0; uint64_t seed = 1; const char* replay = NULL;
+  for (int i = 1; i < argc; i++) { if (!strcmp(argv[i], "--tier") && i + 1 < argc) thorough = !strcmp(argv[++i], "thorough"); else if (!strcmp(argv[i], "--seed") && i + 1 < argc) seed = strtoull(argv[++i], NULL, 0); else if (!strcmp(argv[i], "--replay") && i + 1 < argc) replay = argv[++i]; }
+  rng_s = seed * 0x9E3779B97F4A7C15ull + 99;
+  signal(SIGSEGV, crash_handler); signal(SIGBUS, crash_handler); signal(SIGFPE, crash_handler); signal(SIGABRT, crash_handler); signal(SIGILL, crash_handler);
+  if (&mi_is_in_heap_region != NULL && &mi_usable_size != NULL) { mi_in_region = &in_region_static; mi_usable = (usable_fn)&mi_usable_size; }
+  else { mi_in_region = (in_region_fn)dlsym(RTLD_DEFAULT, "mi_is_in_heap_region"); mi_usable = (usable_fn)dlsym(RTLD_DEFAULT, "mi_usable_size"); }
+  p_cfree = (cfree_fn)dlsym(RTLD_DEFAULT, "cfree"); p_reallocarray = (reallocarray_fn)dlsym(RTLD_DEFAULT, "reallocarray");
+  if ((!mi_in_region || !mi_usable) && replay) { printf("FAIL clause=override-not-active: the allocator's symbols are not present in the process\n"); return 1; }
+  if (!mi_in_region || !mi_usable) { printf("{\"evaluations\":1,\"distinct_nontrivial\":0,\"violations\":1,\"classes\":{},\"samples\":[],\"violation_list\":[{\"msg\":\"the allocator's symbols (mi_is_in_heap_region, mi_usable_size) are not present in the process: the override is not active\",\"replay\":\"errors\"}]}\n"); return 0; }
+  g_src = (char*)malloc(65001); for (int i = 0; i < 65000; i++) g_src[i] = (char)('a' + i % 26); g_src[65000] = 0;
+  if (replay) { replaying = 1; FILE* f = fopen(replay, "r"); if (!f) return 2; char line[200]; while (fgets(line, sizeof line, f)) { int a, r, fr; size_t n, al; if (sscanf(line, "tuple %d %d %d %zu %zu", &a, &r, &fr, &n, &al) == 5) check_tuple(a, r, fr, n, al); else if (!strncmp(line, "errors", 6)) check_errors(); else { int th = 0; unsigned long long sd = 1; if (sscanf(line, "rerun %d %llu", &th, &sd) == 2) { rng_s = (uint64_t)sd * 0x9E3779B97F4A7C15ull + 99; run_all(th); } } } fclose(f); if (!n_viol) printf("PASS\n"); return n_viol ? 1 : 0; }
+  snprintf(g_rerun, sizeof g_rerun, "rerun %d %llu", thorough, (unsigned long long)seed);
+  run_all(thorough);
   printf("{\"evaluations\":%ld,\"distinct_nontrivial\":%ld,\"violations\":%ld,\"classes\":{\"alloc_entry_points\":%d,\"release_entry_points\":%d},\"samples\":[\"tuple a=%s resize=realloc f=%s n=70000 (full A x F matrix for 12 size representatives, then generated tuples)\"],\"violation_list\":[", n_eval, n_nontrivial, n_viol, (int)A_COUNT, (int)F_COUNT, A_NAMES[A_COUNT - 1 > 5 ? 5 : 0], F_NAMES[F_COUNT - 1]);
   for (int i = 0; i < n_viol && i < 8; i++) { if (i) putchar(','); printf("{\"msg\":\""); for (char* c = viol[i]; *c; c++) { if (*c == '"' || *c == '\\') putchar('\\'); putchar(*c); } printf("\",\"replay\":\"%s\"}", viol_replay[i]); }
   printf("]}\n"); fflush(stdout);
